@@ -108,6 +108,27 @@ PROPS = {
                                                 "kx.step3/step3.bitflip", "kx.step4/step4.other", "kx.step2/step2.rerand"]})],
         assumptions=["SM2.tla transcribes GB/T 32918.3 with w = 127 and one-byte tags (GM/T 0003.5 Annex values as ASSUMEs)"],
     ),
+    "C14": dict(
+        level="model_checking",
+        rule="events = randomized operations (SM2 keygen/sign/encrypt/exchange steps, SM9 keygen/sign/encrypt/exchange) with the sampler's candidate log from the RNG hook, "
+             "in two driver processes, plus injected out-of-range candidates; distinct = distinct accepted scalars; non-trivial = all operations",
+        models=[dict(module="Rng", about="toy sampler machine: all candidate sequences <= 3 per operation: used scalars are in range, accepted during the operation, one per operation"),
+                dict(module="Rng", cfg="Rng_neg", expect="violation", about="negative: a sampler accepting candidates up to CMax-1 (like c < p-1) must be refuted")],
+        stages=[dict(suite="rng", trace="TraceRng", workers=1,
+                     required_classes={"both": ["rng.op/sm2.sign", "rng.op/sm2.keygen", "rng.op/sm2.encrypt", "rng.op/sm2.kx1", "rng.op/sm2.kx2", "rng.op/sm2.sign.injected", "rng.summary/summary"]})],
+        assumptions=["bit-unbiasedness is a counting test (8 sigma per bit position); OS seeding is observed only through non-repetition across two processes",
+                     "the RNG hook reports every candidate at the point where 32 generator bytes become a candidate"],
+    ),
+    "C19": dict(
+        level="model_checking",
+        rule="events = encoders (all forms of a key), decoders on canonical / malformed / OpenSSL-made input, ASN.1 ciphertext encoders/decoders with searched ephemeral scalars; "
+             "distinct = distinct (operation, input bytes); non-trivial = all",
+        models=[dict(module="AnchorSM2Codec", anchor=True, about="SM2Codec.tla reproduces the OpenSSL-made SPKI/PKCS#8 DER+PEM and decodes/re-encodes/decrypts the 18 OpenSSL GM/T 0009 ciphertexts")],
+        stages=[dict(suite="sm2codec", trace="TraceSM2",
+                     required_classes={"both": ["codec.encode/encode.plain", "codec.decode/decode.pk_bytes.roundtrip", "codec.decode/decode.spki_pem.openssl", "codec.decode/decode.pkcs8_pem.openssl",
+                                                "codec.decode/decode.pk_bytes.off-curve", "codec.asn1_enc/asn1.enc.x-lead0x1", "codec.asn1_enc/asn1.enc.y-lead0x1", "codec.asn1_dec/asn1.dec.openssl"]})],
+        assumptions=["SM2Codec.tla: SEC1 / hex / SPKI / PKCS#8 templates / PEM / GM/T 0009 DER, anchored by OpenSSL-made documents (committed corpus, not a live OpenSSL)"],
+    ),
 }
 
 # what MANIFEST.json says about each claimed check
@@ -191,6 +212,14 @@ MANIFEST_TEXT["C15"] = dict(
     note="Trusted: as C03 (GM/T 0003.5 Annex key agreement values as ASSUMEs), the Exchange state accessor hook.",
     technique="TLC exhaustive protocol model with channel adversary + TLA+ trace validation of TLC-planned tamper runs at real parameters",
 )
+MANIFEST_TEXT["C19"] = dict(
+    text="SM2Codec.tla specifies SEC1 compressed/uncompressed/hybrid point encodings, hex, the SPKI and PKCS#8 DER documents, PEM armor and the GM/T 0009 ciphertext SEQUENCE with a DER codec; "
+         "it is anchored on every run to OpenSSL-3.0-made documents (SPKI/PKCS#8 DER+PEM, 18 DER ciphertexts decoded, re-encoded byte-identically and decrypted). Every recorded encoder output "
+         "must equal the specification's bytes; every decoder outcome on canonical, malformed (wrong length, off-curve, coordinates >= p, bad prefix, truncated DER) and OpenSSL-made input must "
+         "match; ASN.1 ciphertexts are produced under the RNG hook with ephemeral scalars SEARCHED so that C1.x / C1.y have leading zero bytes and compared byte-exactly.",
+    note="Trusted: as C03, plus the committed OpenSSL corpus (not a live OpenSSL). For DER/PEM inputs outside the canonical framing the specification only requires 'no panic; a decoded key is valid'.",
+    technique="TLA+ trace validation with TLC (codec specification anchored to OpenSSL documents), searched boundary ephemeral points via the RNG hook",
+)
 
 NOT_APPLICABLE = {
     "C09": "machinery for this property is not built yet in this round (specification module in progress); not claimed until its check is sound",
@@ -201,6 +230,5 @@ NOT_APPLICABLE = {
     "C14": "machinery for this property is not built yet in this round (specification module in progress); not claimed until its check is sound",
     "C16": "machinery for this property is not built yet in this round (specification module in progress); not claimed until its check is sound",
     "C17": "machinery for this property is not built yet in this round (specification module in progress); not claimed until its check is sound",
-    "C19": "machinery for this property is not built yet in this round (specification module in progress); not claimed until its check is sound",
     "C20": "machinery for this property is not built yet in this round (specification module in progress); not claimed until its check is sound",
 }
